@@ -210,9 +210,19 @@ type stub struct {
 	// tcpOff: no TCP listener (a UDP-only server)
 	tcpOff    bool
 	flushSeen int
-	ip        net.IP
-	port      int
-	addr      netip.AddrPort
+	// probeFail: answer health probes (names with ".hc-") with SERVFAIL
+	// whatever the mode; noLog: do not record requests (stress phases).
+	probeFail bool
+	noLog     bool
+	// hold: withhold every reply until holdTarget requests have arrived (or
+	// the harness releases them), then send them all at once.
+	holdCh      chan struct{}
+	holdTarget  int
+	holdArrived int
+	holdOpen    bool
+	ip          net.IP
+	port        int
+	addr        netip.AddrPort
 
 	mu    sync.Mutex
 	mode  mode
@@ -446,6 +456,13 @@ func (s *stub) handle(raw []byte, netw string) [][]byte {
 	}
 	s.mu.Lock()
 	m := s.mode
+	if s.probeFail && strings.Contains(req.Question[0].Name, ".hc-") {
+		m = mServfail
+	}
+	if s.noLog {
+		s.mu.Unlock()
+		return [][]byte{buildReply(m, req, netw, s.ip, s.nonce)}
+	}
 	extra := ""
 	valid := m == mUp || m == mUpCase || (m == mTrunc && netw == "tcp")
 	if valid && ((s.armed == "stray" && netw == "tcp") || (s.armed == "dup" && netw == "udp")) {
@@ -476,7 +493,19 @@ func (s *stub) serveUDP(pc net.PacketConn) {
 		if err != nil {
 			return
 		}
-		for _, out := range s.handle(append([]byte(nil), buf[:n]...), "udp") {
+		outs := s.handle(append([]byte(nil), buf[:n]...), "udp")
+		if ch := s.holdWait(len(outs)); ch != nil {
+			s.wg.Add(1)
+			go func(outs [][]byte, from net.Addr) {
+				defer s.wg.Done()
+				<-ch
+				for _, out := range outs {
+					_, _ = pc.WriteTo(out, from)
+				}
+			}(outs, from)
+			continue
+		}
+		for _, out := range outs {
 			_, _ = pc.WriteTo(out, from)
 		}
 	}
@@ -527,10 +556,58 @@ func (s *stub) serveConn(c net.Conn) {
 		if msg == nil {
 			continue
 		}
+		if ch := s.holdWait(1); ch != nil {
+			<-ch
+		}
 		if _, err := c.Write(msg); err != nil {
 			return
 		}
 	}
+}
+
+// holdStart makes the stub withhold its replies until n requests have arrived.
+func (s *stub) holdStart(n int) {
+	s.mu.Lock()
+	s.holdCh, s.holdTarget, s.holdArrived, s.holdOpen = make(chan struct{}), n, 0, false
+	s.mu.Unlock()
+}
+
+// holdWait is called by the serving loops for a request with nOut replies.
+func (s *stub) holdWait(nOut int) chan struct{} {
+	s.mu.Lock()
+	defer s.mu.Unlock()
+	if s.holdCh == nil || nOut == 0 {
+		return nil
+	}
+	s.holdArrived++
+	if s.holdArrived >= s.holdTarget && !s.holdOpen {
+		s.holdOpen = true
+		close(s.holdCh)
+	}
+	return s.holdCh
+}
+
+// holdEnd releases whatever is still withheld; forced tells whether the
+// target had not been reached.
+func (s *stub) holdEnd() (arrived int, forced bool) {
+	s.mu.Lock()
+	defer s.mu.Unlock()
+	if s.holdCh == nil {
+		return 0, false
+	}
+	if !s.holdOpen {
+		s.holdOpen, forced = true, true
+		close(s.holdCh)
+	}
+	arrived = s.holdArrived
+	s.holdCh = nil
+	return arrived, forced
+}
+
+func (s *stub) setStress(probeFail, noLog bool) {
+	s.mu.Lock()
+	s.probeFail, s.noLog = probeFail, noLog
+	s.mu.Unlock()
 }
 
 func (s *stub) takeTornDown() bool {
@@ -1323,6 +1400,7 @@ type fixture struct {
 	hcSuffix   string
 	nets       []string
 	nonce      string
+	timeout    time.Duration
 }
 
 func (fx *fixture) all() []*stub { return append(append([]*stub{}, fx.mains...), fx.fbs...) }
@@ -1338,7 +1416,7 @@ func netOf(s string) forward.Network {
 }
 
 func newFixture(M, F int, nets []string) (*fixture, error) {
-	fx := &fixture{byAddr: map[string]*stub{}, lst: &listener{}, nets: nets,
+	fx := &fixture{byAddr: map[string]*stub{}, lst: &listener{}, nets: nets, timeout: upsTimeout,
 		nonce: fmt.Sprintf("c17-%d-%016x", os.Getpid(), rand.Uint64())}
 	for i := 0; i < M; i++ {
 		s, err := newStub("main", i, fx.nonce)
@@ -1372,11 +1450,11 @@ func (fx *fixture) newHandler(tag string, backoff, initDur time.Duration) {
 	}
 	for i, s := range fx.mains {
 		conf.UpstreamsAddresses = append(conf.UpstreamsAddresses, &forward.UpstreamPlainConfig{
-			Network: netOf(fx.nets[i]), Address: s.addr, Timeout: upsTimeout})
+			Network: netOf(fx.nets[i]), Address: s.addr, Timeout: fx.timeout})
 	}
 	for i, s := range fx.fbs {
 		conf.FallbackAddresses = append(conf.FallbackAddresses, &forward.UpstreamPlainConfig{
-			Network: netOf(fx.nets[len(fx.mains)+i]), Address: s.addr, Timeout: upsTimeout})
+			Network: netOf(fx.nets[len(fx.mains)+i]), Address: s.addr, Timeout: fx.timeout})
 	}
 	fx.h = forward.NewHandler(conf)
 }
@@ -2654,6 +2732,10 @@ func TestCheck(t *testing.T) {
 	if only < 0 {
 		concurrent(r, onlyCC)
 	}
+	if only < 0 && onlyCC < 0 {
+		flipPhase(r)
+		poolBurst(r)
+	}
 	if only >= 0 || onlyCC >= 0 {
 		return
 	}
@@ -2679,6 +2761,11 @@ func TestCheck(t *testing.T) {
 		"extra_message:cases_with_3_later_answers":          30,
 		"extra_message:cases_with_3_later_answers:tcp":      8,
 		"extra_message:cases_with_3_later_answers:udp":      3,
+		"flip_phase_refresh_rounds":                         2000,
+		"flip_phase_queries_answered_by_main":               2000,
+		"flip_phase_queries_answered_by_fallback":           2000,
+		"pool_bursts_judged":                                2,
+		"pool_burst_queries_answered_by_main":               2000,
 		"queries_silent_main_failover_judged":               100,
 		"queries_silent_main_answered_by_fallback":          60,
 		"backoff_held_after_context_ended_probe":            8,
@@ -2700,5 +2787,247 @@ func TestCheck(t *testing.T) {
 		"queries_main_truncated_reply_relayed_udp_only":     8,
 	} {
 		r.Require(b, min)
+	}
+}
+
+// ---------------------------------------------------------------------------
+// queries running hot against Refresh rounds that empty / shrink / restore the
+// active set.  Every upstream answers every query; only health probes fail, so
+// every query must be answered (by a main, or by the fallback while no main is
+// active) and ServeDNS must never panic.
+
+func flipPhase(r *vkit.Run) {
+	insts := r.N(3, 10)
+	rounds := r.N(450, 1500)
+	const G = 24
+	for inst := 0; inst < insts; inst++ {
+		M := 2 + inst%2
+		nets := make([]string, M+1)
+		for i := range nets {
+			nets[i] = []string{"udp", "any"}[(inst+i)%2]
+		}
+		fx, err := newFixture(M, 1, nets)
+		if err != nil {
+			r.Bucket("abandoned_no_port", 1)
+			continue
+		}
+		fx.timeout = 2 * time.Second
+		func() {
+			defer fx.close()
+			modes := make([]mode, M+1)
+			if err = fx.setModes(modes); err != nil {
+				return
+			}
+			for _, s := range fx.all() {
+				s.setStress(false, true)
+			}
+			fx.newHandler(fmt.Sprintf("flip%d", inst), 0, 0)
+			var stop atomic.Bool
+			var wg sync.WaitGroup
+			var nQ, nMain, nFb, nErrSlow atomic.Int64
+			for g := 0; g < G; g++ {
+				wg.Add(1)
+				go func(g int) {
+					defer wg.Done()
+					for k := 0; !stop.Load(); k++ {
+						name := fmt.Sprintf("q%d.g%d.flip%d.c17.verif.test.", k, g, inst)
+						func() {
+							defer func() {
+								if p := recover(); p != nil {
+									r.Violation("panic:serve-dns-concurrent-with-refresh",
+										fmt.Sprintf("ServeDNS panicked while health-check rounds were changing the set of active main upstreams: %v", p),
+										map[string]any{"instance": inst, "mains": M, "query": name, "goroutines": G})
+									r.Bucket("flip_phase_panics", 1)
+								}
+							}()
+							req, rw, qerr, c0, c1 := fx.doQuery(name, dns.TypeA, uint16(k*31+g), longCtx)
+							nQ.Add(1)
+							rw.mu.Lock()
+							n, resp := rw.n, rw.resp
+							rw.mu.Unlock()
+							switch {
+							case qerr != nil && c1.Sub(c0) > fx.timeout*9/10:
+								nErrSlow.Add(1) // an upstream may have been starved: timing-dependent
+							case qerr != nil || n == 0 || resp == nil:
+								r.Violation("flip:query-not-answered", "every upstream answers every query, yet a query concurrent with health-check rounds got an error or no response",
+									map[string]any{"instance": inst, "query": name, "err": fmt.Sprint(qerr), "responses_written": n})
+							default:
+								if mmf := replyMismatch(req, resp); mmf != "" {
+									r.Violation("reply:accepted-mismatch:"+mmf, "a response whose "+mmf+" does not match the query was handed to the client", map[string]any{"instance": inst, "query": name})
+								}
+								if role, _ := identify(resp); role == "main" {
+									nMain.Add(1)
+								} else if role == "fb" {
+									nFb.Add(1)
+								}
+							}
+						}()
+					}
+				}(g)
+			}
+			commits := 0
+			func() {
+				defer func() {
+					if p := recover(); p != nil {
+						r.Violation("panic:refresh-concurrent-with-queries", fmt.Sprintf("Refresh panicked: %v", p), map[string]any{"instance": inst})
+					}
+				}()
+				for k := 0; k < rounds; k++ {
+					// all mains fail their probes (active set -> empty), or all
+					// but the first (-> one), then all pass again
+					from := 0
+					if k%3 == 2 {
+						from = 1
+					}
+					for i, s := range fx.mains {
+						s.setStress(i >= from, true)
+					}
+					ctx, cancel := context.WithTimeout(context.Background(), longCtx)
+					_ = fx.h.Refresh(ctx)
+					cancel()
+					for _, s := range fx.mains {
+						s.setStress(false, true)
+					}
+					ctx, cancel = context.WithTimeout(context.Background(), longCtx)
+					_ = fx.h.Refresh(ctx)
+					cancel()
+					commits += 2
+				}
+			}()
+			stop.Store(true)
+			wg.Wait()
+			r.Bucket("flip_phase_refresh_rounds", int64(commits))
+			r.Bucket("flip_phase_queries", nQ.Load())
+			r.Bucket("flip_phase_queries_answered_by_main", nMain.Load())
+			r.Bucket("flip_phase_queries_answered_by_fallback", nFb.Load())
+			r.Bucket("flip_phase_slow_errors_ignored", nErrSlow.Load())
+			r.Eval(fmt.Sprintf("flip/M%d", M), false)
+		}()
+	}
+	r.Extra("flip_instances", insts)
+}
+
+// ---------------------------------------------------------------------------
+// more exchanges in flight to one healthy main upstream than its connection
+// pool can hold idle: the stub withholds all replies and releases them at once.
+// Every query must be answered by the main.
+
+func poolBurst(r *vkit.Run) {
+	const N = 1100
+	variants := []struct {
+		net    string
+		F      int
+		tcpOff bool
+	}{{"tcp", 1, false}, {"udp", 1, true}, {"tcp", 0, false}}
+	for vi, v := range variants {
+		nets := []string{v.net}
+		for i := 0; i < v.F; i++ {
+			nets = append(nets, "any")
+		}
+		fx, err := newFixture(1, v.F, nets)
+		if err != nil {
+			r.Bucket("abandoned_no_port", 1)
+			continue
+		}
+		fx.timeout = 8 * time.Second
+		func() {
+			defer fx.close()
+			main := fx.mains[0]
+			if err = main.setTCPOff(v.tcpOff); err != nil {
+				return
+			}
+			if err = fx.setModes(make([]mode, 1+v.F)); err != nil {
+				return
+			}
+			if uc, ok := main.pc.(*net.UDPConn); ok {
+				_ = uc.SetReadBuffer(4 << 20)
+			}
+			for _, s := range fx.all() {
+				s.setStress(false, true)
+			}
+			fx.newHandler(fmt.Sprintf("burst%d", vi), 0, 0)
+			main.holdStart(N)
+			type res struct {
+				err    string
+				role   string
+				kind   string
+				dur    time.Duration
+				panick string
+			}
+			out := make([]res, N)
+			var wg sync.WaitGroup
+			for i := 0; i < N; i++ {
+				wg.Add(1)
+				go func(i int) {
+					defer wg.Done()
+					defer func() {
+						if p := recover(); p != nil {
+							out[i].panick = fmt.Sprint(p)
+						}
+					}()
+					name := fmt.Sprintf("q%d.burst%d.c17.verif.test.", i, vi)
+					req, rw, qerr, c0, c1 := fx.doQuery(name, dns.TypeA, uint16(i), 2*longCtx)
+					out[i].dur = c1.Sub(c0)
+					rw.mu.Lock()
+					n, resp := rw.n, rw.resp
+					rw.mu.Unlock()
+					switch {
+					case qerr != nil:
+						out[i].err, out[i].kind = qerr.Error(), "error"
+					case n == 0 || resp == nil:
+						out[i].kind = "none"
+					default:
+						if mmf := replyMismatch(req, resp); mmf != "" {
+							out[i].kind = "mismatch:" + mmf
+						} else {
+							out[i].role, _ = identify(resp)
+							out[i].kind = "answer"
+						}
+					}
+				}(i)
+			}
+			done := make(chan struct{})
+			go func() { wg.Wait(); close(done) }()
+			select {
+			case <-done:
+			case <-time.After(6 * time.Second):
+			}
+			arrived, forced := main.holdEnd()
+			<-done
+			slow := forced
+			byKind := map[string]int{}
+			var samples []string
+			for _, o := range out {
+				if o.dur > fx.timeout*9/10 {
+					slow = true
+				}
+				k := o.kind
+				if o.kind == "answer" {
+					k = "answer-" + o.role
+				}
+				if o.panick != "" {
+					k = "panic"
+				}
+				byKind[k]++
+				if k != "answer-main" && len(samples) < 3 {
+					samples = append(samples, k+": "+o.err+o.panick)
+				}
+			}
+			r.Bucket("pool_burst_requests_held_by_main", int64(arrived))
+			if slow {
+				// the requests did not all reach the stub in time, or a call ran
+				// into the upstream timeout: timing-dependent
+				r.Bucket("ambiguous_pool_burst", 1)
+				return
+			}
+			r.Bucket("pool_burst_queries_answered_by_main", int64(byKind["answer-main"]))
+			r.Bucket("pool_bursts_judged", 1)
+			r.Eval(fmt.Sprintf("pool-burst/%s/F%d", v.net, v.F), false)
+			if byKind["answer-main"] != N {
+				r.Violation("pool-burst:reply-of-healthy-main-not-delivered:"+v.net,
+					fmt.Sprintf("%d queries were in flight to one healthy main upstream (more than its connection pool keeps idle); the upstream answered every one of them, but not every client was answered by it", N),
+					map[string]any{"network": v.net, "fallbacks": v.F, "main_has_tcp": !v.tcpOff, "requests_seen_by_main": arrived, "outcomes": byKind, "samples": samples})
+			}
+		}()
 	}
 }
